@@ -25,5 +25,10 @@ CHECKS = {
   "note": "Trusted: os._exit before the mutation models a kill (buffers of already-open files are lost, as with SIGKILL); crash points before .params is complete are out of scope; crashes between two mutations are represented by the following mutation point; multi-process kill points are sampled.",
   "technique": "fault injection at counted file-system mutations (monkeypatched open/gzip.open/os.remove) + differential comparison with a clean run",
  },
+ "C10": {
+  "text": "Joint runs over several experiments (YAML and list inputs; sequences [A,B], [B,A], [A,A2], [A,B,C], ...; --threads 1 and 4; one and two files per experiment; with and without model construction) are compared, experiment by experiment and byte by byte, with stand-alone runs of the same experiment under the same name and options; combined_* tables are compared cell by cell with the per-experiment tables; the state monitor records the class-level state present at each process_sample entry. Sequences are sampled.",
+  "note": "Trusted: byte comparison of trees (command-line header ignored). Sequences keep the number of files per experiment uniform, because a mixed sequence switches on file-name grouping for every experiment by design (extra grouped tables for single-file experiments).",
+  "technique": "differential runtime monitoring (joint vs stand-alone executions) + carried-state snapshots at hooked process_sample",
+ },
 }
 NOT_APPLICABLE = {}
